@@ -56,14 +56,14 @@ func TestC30(t *testing.T) {
 	harness.Check(t, "C30",
 		"a valid (root, proof, leaf) triple from a generated tree (n like C29 up to 150, both parent-hash formats via the real globals), 3 leaf indices per tree, and for each EVERY single-field "+
 			"mutation of a fixed catalogue: 8 leaf fields, leaf of another index, target index -> sibling / each single path bit flipped / random in-tree index, index + k*2^levels (index-binding "+
-			"format only: the legacy hash does not bind the index and the keeper only admits index < total), target hash bit / lower / upper, per level sibling hash bit, lower+-1, upper+-1, "+
+			"format only: the legacy hash does not bind the index and the keeper only admits index < total), target hash bit / lower / upper, per level sibling hash bit, lower+-1, upper+-1, the boundary shared by two same-side siblings shifted in both (continuity preserved), "+
 			"dropped first/last level, duplicated level, swapped levels (level count = len as the keeper passes it), root hash bit / upper+-1 / lower=1, root of another relay set, other hash format. "+
 			"Oracle: the unmutated triple verifies, every mutation gives isValid=false. 1/3 of cases: multiset with 1-3 duplicated relays; oracle from a hash-free model of empty ranges: path meets an "+
 			"empty node <=> (false, replay=true), else (true,false); plus the same through a real keeper + message handler (required index found by probing): replay => code 86, burn of total*multiplier "+
 			"and claim deleted when REPBR is active. non-trivial = mutation case in which a mutated branch contains a padding sibling (every mutation case already contains sibling range-bound mutations and "+
 			"level-0-parity-preserving index changes, see class labels), or a duplicate tree with a replay path",
 		map[string]float64{"mutations": 0.5, "duplicates": 0.2, "replay-path": 0.15, "clean-path-in-duplicate-tree": 0.12, "legacy-hash": 0.2, "index-binding-hash": 0.35,
-			"index-out-of-tree": 0.25, "sibling-range-bound": 0.5, "index-change-keeps-level0-parity": 0.5, "padding-sibling-on-path": 0.2, "keeper-replay-burn": 0.02, "keeper-clean-reward": 0.015},
+			"index-out-of-tree": 0.25, "sibling-range-bound": 0.5, "index-change-keeps-level0-parity": 0.5, "padding-sibling-on-path": 0.2, "coordinated-boundary-shift": 0.4, "keeper-replay-burn": 0.02, "keeper-clean-reward": 0.015},
 		func(rt *rapid.T, c *harness.Case) {
 			if rapid.IntRange(0, 2).Draw(rt, "caseKind") == 0 {
 				c30Duplicates(rt, c)
@@ -211,6 +211,35 @@ func TestC30(t *testing.T) {
 							m.HashRanges[l].Range.Upper += uint64(d)
 							add(fmt.Sprintf("sib[%d].upper%+d", l, d), m, root, leaf, "sibling-range-bound")
 						}
+					}
+				}
+				// --- two siblings changed consistently: the boundary shared by the siblings of two levels on the same side
+				// moves by one, so every local continuity check still holds and only the hashed ranges can tell
+				for l := 0; l < L; l++ {
+					for l2 := l + 1; l2 < L; l2++ {
+						if (idx>>uint(l))&1 != (idx>>uint(l2))&1 {
+							continue
+						}
+						m := cloneMerkleProof(mp)
+						lo, hi := &m.HashRanges[l], &m.HashRanges[l2]
+						var ok bool
+						if (idx>>uint(l))&1 == 1 { // both on the left: hi=[a2,a) lo=[a,b)
+							if lo.Range.Upper-lo.Range.Lower > 1 {
+								lo.Range.Lower++
+								hi.Range.Upper++
+								ok = true
+							}
+						} else { // both on the right: lo=[b,c) hi=[c,d)
+							if hi.Range.Upper-hi.Range.Lower > 1 {
+								lo.Range.Upper++
+								hi.Range.Lower++
+								ok = true
+							}
+						}
+						if ok {
+							add(fmt.Sprintf("shift-shared-boundary-of-sib[%d]-and-sib[%d]", l, l2), m, root, leaf, "coordinated-boundary-shift")
+						}
+						break // nearest level on the same side only
 					}
 				}
 				// --- the shape of the branch
